@@ -1,51 +1,121 @@
 // harness/fmt_driver.cpp — implementation side of the format cluster (C08): nitro::format (operator%, args(...),
 // str(), conversion to std::string, operator<<) and nitro::except::raise / exception::what().
 //   fmt <format-hex> <op>*      op  = p:<arg> | a:<arg>,<arg>,... | a:.
-//   exc <arg>+                  arg = s<hex> | s- | i<decimal> | d<decimal>
+//   seq <format-hex> <op>* / <format-hex> <op>* / ...        several formatters, one after the other
+//   exc <arg>+
+//   arg = s<hex> | s- | i<dec> | d<dec> | b0 b1 | f<dec> | h<dec> | x<dec> | w<dec> | t0 t1 | m<manipulator>   (see ocaml/fmt_driver.ml)
 #include "common.hpp"
 #include <nitro/except/raise.hpp>
 #include <nitro/format/format.hpp>
 
 #include <cerrno>
+#include <iomanip>
 #include <utility>
 
 namespace
 {
-// an argument of one of the three exercised types; streaming a Val streams the underlying value with
-// the standard operator<< (used where the number of arguments of a variadic call is chosen at run time)
+// user-defined types whose operator<< changes the formatting state of the stream and does not restore it
+struct Hexer { unsigned long v; };
+struct Fixer { double v; };
+struct Padder { long v; };
+struct BoolAlpher { bool v; };
+std::ostream& operator<<(std::ostream& o, const Hexer& x) { return o << std::hex << x.v; }
+std::ostream& operator<<(std::ostream& o, const Fixer& x) { return o << std::fixed << std::setprecision(2) << x.v; }
+std::ostream& operator<<(std::ostream& o, const Padder& x) { return o << std::setfill('*') << std::left << std::setw(6) << x.v; }
+std::ostream& operator<<(std::ostream& o, const BoolAlpher& x) { return o << std::boolalpha << x.v; }
+
+// an argument of one of the exercised kinds; with_value(v, fn) calls fn with the value in its real C++ type
+// (std::string, long, double, bool, the user types above, a manipulator); streaming a Val streams that value
+// with its own operator<< (used where the number of arguments of a variadic call is chosen at run time)
 struct Val
 {
     char kind = 's';
-    std::string s;
-    long l = 0;
+    std::string s; // text, or manipulator name
+    long l = 0;    // number, or manipulator parameter
     double d = 0;
 };
-std::ostream& operator<<(std::ostream& o, const Val& v)
+template <typename Fn>
+void with_value(const Val& v, Fn&& fn)
 {
     switch (v.kind)
     {
-    case 's': return o << v.s;
-    case 'i': return o << v.l;
-    default: return o << v.d;
+    case 's': fn(v.s); break;
+    case 'i': fn(v.l); break;
+    case 'd': fn(v.d); break;
+    case 'b': fn(v.l != 0); break;
+    case 'f': fn(v.d); break;
+    case 'h': fn(Hexer{ static_cast<unsigned long>(v.l) }); break;
+    case 'x': fn(Fixer{ v.d }); break;
+    case 'w': fn(Padder{ v.l }); break;
+    case 't': fn(BoolAlpher{ v.l != 0 }); break;
+    default: // 'm'
+        if (v.s == "hex") fn(std::hex);
+        else if (v.s == "boolalpha") fn(std::boolalpha);
+        else if (v.s == "showbase") fn(std::showbase);
+        else if (v.s == "showpos") fn(std::showpos);
+        else if (v.s == "uppercase") fn(std::uppercase);
+        else if (v.s == "fixed") fn(std::fixed);
+        else if (v.s == "left") fn(std::left);
+        else if (v.s == "setprecision") fn(std::setprecision(static_cast<int>(v.l)));
+        else if (v.s == "setw") fn(std::setw(static_cast<int>(v.l)));
+        else fn(std::setfill(static_cast<char>(v.l)));
+        break;
     }
+}
+std::ostream& operator<<(std::ostream& o, const Val& v)
+{
+    with_value(v, [&](auto&& x) { o << x; });
+    return o;
+}
+bool parse_long(const std::string& w, long& out)
+{
+    char* end = nullptr;
+    errno = 0;
+    long x = std::strtol(w.c_str(), &end, 10);
+    if (w.empty() || errno || end == w.c_str() || *end) return false;
+    out = x;
+    return true;
 }
 bool parse_arg(const std::string& w, Val& v)
 {
     if (w.empty()) return false;
     v.kind = w[0];
-    if (w[0] == 's') { v.s = vh::unhex(w.substr(1)); return true; }
-    if (w[0] == 'i' || w[0] == 'd')
+    const std::string r = w.substr(1);
+    switch (w[0])
     {
-        char* end = nullptr;
-        errno = 0;
-        long x = std::strtol(w.c_str() + 1, &end, 10);
-        if (errno || end == w.c_str() + 1 || *end) return false;
-        v.l = x;
-        v.d = static_cast<double>(x);
+    case 's': v.s = vh::unhex(r); return true;
+    case 'i': case 'd': case 'h': case 'x': case 'w':
+        if (!parse_long(r, v.l)) return false;
+        v.d = static_cast<double>(v.l);
         return true;
+    case 'f':
+        if (!parse_long(r, v.l)) return false;
+        v.d = static_cast<double>(v.l) + 0.5;
+        return true;
+    case 'b': case 't':
+        if (r != "0" && r != "1") return false;
+        v.l = r == "1";
+        return true;
+    case 'm':
+        for (const char* n : { "hex", "boolalpha", "showbase", "showpos", "uppercase", "fixed", "left" })
+            if (r == n) { v.s = n; return true; }
+        for (const char* n : { "setprecision", "setw" })
+            if (r.compare(0, std::strlen(n), n) == 0 && r.size() > std::strlen(n))
+            {
+                v.s = n;
+                return parse_long(r.substr(std::strlen(n)), v.l) && v.l >= 0;
+            }
+        if (r.compare(0, 7, "setfill") == 0 && r.size() == 9)
+        {
+            v.s = "setfill";
+            v.l = static_cast<unsigned char>(vh::unhex(r.substr(7))[0]);
+            return true;
+        }
+        return false;
+    default: return false;
     }
-    return false;
 }
+bool stateless(const Val& v) { return v.kind == 's' || v.kind == 'i' || v.kind == 'd' || v.kind == 'b' || v.kind == 'f'; }
 bool all_strings(const std::vector<Val>& v)
 {
     for (auto& x : v) if (x.kind != 's') return false;
@@ -120,15 +190,8 @@ bool apply_ops(F& f, const std::vector<Op>& ops, bool cstr)
         if (o.kind == 'p')
         {
             const Val& v = o.vals[0];
-            switch (v.kind)
-            {
-            case 's':
-                if (cstr && no_nul(v.s)) f % v.s.c_str();
-                else f % v.s;
-                break;
-            case 'i': f % v.l; break;
-            default: f % v.d; break;
-            }
+            if (v.kind == 's' && cstr && no_nul(v.s)) f % v.s.c_str();
+            else with_value(v, [&](auto&& x) { f % x; });
         }
         else if (!dispatch_args<MAXN>(f, o.vals))
             return false;
@@ -136,26 +199,45 @@ bool apply_ops(F& f, const std::vector<Op>& ops, bool cstr)
     return true;
 }
 
+bool parse_ops(const std::vector<std::string>& w, std::size_t from, std::size_t to, std::vector<Op>& ops)
+{
+    for (std::size_t k = from; k < to; k++)
+    {
+        const std::string& o = w[k];
+        if (o.size() < 3 || o[1] != ':' || (o[0] != 'p' && o[0] != 'a')) return false;
+        Op op{ o[0], {} };
+        if (o.substr(2) != ".")
+            for (auto& e : vh::split_on(o.substr(2), ','))
+            {
+                Val v;
+                if (!parse_arg(e, v)) return false;
+                op.vals.push_back(v);
+            }
+        if (op.kind == 'p' && op.vals.size() != 1) return false;
+        ops.push_back(op);
+    }
+    return true;
+}
+
+// Every case line must be judged on its own (shrinking and replay run single lines).  Should a tree keep
+// formatting state somewhere between uses of the formatter on one thread, this chain — a no-op on a tree that
+// renders every argument on a fresh stream — puts that state back to the defaults through the public interface,
+// so that what a case observes is caused by the case itself.  State carried from one formatter to the next is
+// looked for INSIDE a case (sticky argument followed by a sensitive one; "seq" cases).
+void settle()
+{
+    F r = nitro::format("");
+    r % std::dec % std::noboolalpha % std::noshowbase % std::noshowpos % std::nouppercase % std::defaultfloat % std::right
+        % std::setprecision(6) % std::setfill(' ') % std::setw(0);
+}
+
 static std::string run_case(const std::vector<std::string>& w)
 {
+    settle();
     if (w.size() >= 2 && w[0] == "fmt")
     {
         std::vector<Op> ops;
-        for (std::size_t k = 2; k < w.size(); k++)
-        {
-            const std::string& o = w[k];
-            if (o.size() < 3 || o[1] != ':' || (o[0] != 'p' && o[0] != 'a')) return "BADCASE";
-            Op op{ o[0], {} };
-            if (o.substr(2) != ".")
-                for (auto& e : vh::split_on(o.substr(2), ','))
-                {
-                    Val v;
-                    if (!parse_arg(e, v)) return "BADCASE";
-                    op.vals.push_back(v);
-                }
-            if (op.kind == 'p' && op.vals.size() != 1) return "BADCASE";
-            ops.push_back(op);
-        }
+        if (!parse_ops(w, 2, w.size(), ops)) return "BADCASE";
         const std::string fmt = vh::unhex(w[1]);
         F f = nitro::format(fmt);
         if (!apply_ops(f, ops, false)) return "BADCASE";
@@ -166,13 +248,34 @@ static std::string run_case(const std::vector<std::string>& w)
         std::string d = a;
         if (no_nul(fmt))
         {
-            // the const Char* overload of nitro::format, const char* arguments, used as a temporary chain end
+            // the const Char* overload of nitro::format, const char* arguments
+            settle();
             F g = nitro::format(fmt.c_str());
             if (!apply_ops(g, ops, true)) return "BADCASE";
             d = observe([&] { return g.str(); });
         }
         if (a != b || a != c || a != d) return "ROUTES-DIFFER str=" + a + " conv=" + b + " os=" + c + " cstr=" + d;
         return a;
+    }
+    if (w.size() >= 2 && w[0] == "seq")
+    {
+        // several formatters one after the other on this thread; "/" separates them
+        std::string out = "Q";
+        std::size_t k = 1;
+        while (k <= w.size())
+        {
+            std::size_t e = k;
+            while (e < w.size() && w[e] != "/") e++;
+            if (e == k) return "BADCASE";
+            std::vector<Op> ops;
+            if (!parse_ops(w, k + 1, e, ops)) return "BADCASE";
+            F f = nitro::format(vh::unhex(w[k]));
+            if (!apply_ops(f, ops, false)) return "BADCASE";
+            std::string r = observe([&] { return f.str(); });
+            out += " " + (r == "RAISE" ? std::string("R") : r.substr(2));
+            k = e + 1;
+        }
+        return out;
     }
     if (w.size() >= 2 && w[0] == "exc")
     {
@@ -181,6 +284,8 @@ static std::string run_case(const std::vector<std::string>& w)
         {
             Val v;
             if (!parse_arg(w[k], v)) return "BADCASE";
+            // one stream serves all arguments of a message: only arguments that leave its state alone are in scope
+            if (!stateless(v)) return "BADCASE";
             vs.push_back(v);
         }
         return dispatch_exc<MAXN>(vs);
